@@ -50,7 +50,9 @@ def tag_body(it):
         return f"macro{nl}" + {"": f"m{d}()", "c": f"w{d}()", "i": "m()"}[ref]
     if n == "call":
         return f"call{nl}w{d}()"
-    if n in ("endif", "endfor", "endblock", "endmacro", "endcall", "endwith", "endfilter", "endset", "endautoescape"):
+    if n == "raw":
+        return "raw" + ("\n" * it["nlin"])
+    if n in ("endraw", "endif", "endfor", "endblock", "endmacro", "endcall", "endwith", "endfilter", "endset", "endautoescape"):
         return n
     if n == "with":
         return f"with zw{d} = 1"
@@ -148,7 +150,8 @@ def case_sources(case, newline):
 
 
 def case_id(case):
-    return {k: case[k] for k in ("wraps", "pre", "gap", "pgap", "sign", "nlin", "trim", "probe")}
+    return dict({k: case[k] for k in ("wraps", "pre", "gap", "pgap", "sign", "nlin", "trim", "probe")},
+                raw=case.get("raw", "none"))
 
 
 # ---------------------------------------------------------------------------
@@ -216,7 +219,7 @@ def check_token_lines(ck, case, newline):
     for ti, t in enumerate(case["tpls"]):
         want = [tl["line"] for tl in case["toks"] if tl["tpl"] == ti + 1]
         try:
-            got = [ln for ln, tok, _ in env.lex(sources[t["name"]]) if tok in ("block_begin", "variable_begin")]
+            got = [ln for ln, tok, _ in env.lex(sources[t["name"]]) if tok in TAG_START_TOKENS]
         except Exception:  # noqa: BLE001  (malformed probes may stop the lexer: compare the prefix)
             got = None
         if got is None:
@@ -231,7 +234,12 @@ def check_token_lines(ck, case, newline):
     return n
 
 
-def lt_cfg(wrappers, depth, pres, gaps, pgaps, signs, nlins, trims, probes, count=True, invs=True):
+# the first token of every tag item of the specification ({% raw %} / {% endraw %} are one token each)
+TAG_START_TOKENS = ("block_begin", "variable_begin", "raw_begin", "raw_end")
+
+
+def lt_cfg(wrappers, depth, pres, gaps, pgaps, signs, nlins, trims, probes, count=True, invs=True, raws=("none",),
+           count_begin=True):
     def S(xs):
         return "{" + ", ".join(core.tla_str(x) for x in xs) + "}"
     s = f"""CONSTANTS
@@ -245,6 +253,8 @@ def lt_cfg(wrappers, depth, pres, gaps, pgaps, signs, nlins, trims, probes, coun
   Trims = {S(trims)}
   Probes = {S(probes)}
   CountStripped = {core.tla_str(count)}
+  Raws = {S(raws)}
+  CountBegin = {core.tla_str(count_begin)}
 SPECIFICATION Spec
 INVARIANT C35_TokenLine
 """
@@ -256,6 +266,7 @@ INVARIANT C35_TokenLine
 ALL_WRAPPERS = ["if", "for", "with", "filter", "setblock", "autoescape", "block", "macro", "call", "include", "extends",
                 "childblock", "import"]
 STMT_PROBES = ["raiseif", "raiseset", "raisefor", "raiseauto", "raisetrans"]
+RAW_WRAPPERS = ["for", "block", "macro", "include", "childblock", "import"]
 ALL_GAPS = ["tight", "sp", "nl", "nlsp", "nl2", "txtnl", "nltxt"]
 ALL_SIGNS = ["none", "lminus", "rminus", "both"]
 ALL_PROBES = ["raise", "badtag", "badexpr", "badchar", "badclose"] + ["raiseif", "raiseset", "raisefor", "raiseauto", "raisetrans"]
@@ -283,6 +294,9 @@ def layout_runs(ck):
         runs.append(("LineTrack depth 2, every nesting",
                      lt_cfg(ALL_WRAPPERS, 2, [1], ["nl"], ["nl"], ["none", "both"], [0], [False, True],
                             ["raise"] + STMT_PROBES)))
+        runs.append(("LineTrack raw blocks (top of every template / before the probe), depth<=1",
+                     lt_cfg(RAW_WRAPPERS, 1, [1], ["tight", "nl", "nl2", "txtnl"], ["nl"], ALL_SIGNS, [0, 1],
+                            [False, True], ["raise", "badtag", "raisefor"], raws=["top", "probe"])))
     else:
         runs.append(("LineTrack depth<=1, all layouts",
                      lt_cfg(ALL_WRAPPERS, 1, [0, 2], ALL_GAPS, ["tight", "nl", "nl2", "nlsp", "txtnl", "nltxt"], ALL_SIGNS,
@@ -306,6 +320,10 @@ def layout_jobs(ck, runs):
     jobs["ltneg"] = lambda: core.run_tlc(
         PID, "LineTrack", lt_cfg(["if"], 1, [0], ["nl"], ["nl"], ["lminus"], [0], [False], ["raise"], count=False,
                                  invs=False), name="ltneg", workers=1)
+    # negative control: without the "#bygroup" increment everything after {% raw -%} + line break is reported too early
+    jobs["ltneg_raw"] = lambda: core.run_tlc(
+        PID, "LineTrack", lt_cfg(["if"], 1, [0], ["nl"], ["nl"], ["rminus"], [0], [False], ["raise"], invs=False,
+                                 raws=["top"], count_begin=False), name="ltneg_raw", workers=1)
     return jobs
 
 
@@ -323,6 +341,10 @@ def part_layout(ck, runs, res):
     ck.tlc_runs.append({"spec": "LineTrack negative control CountStripped=FALSE", "violated": rn.invariant_violated})
     if "C35_TokenLine" not in rn.invariant_violated:
         raise core.MachineryError("negative control CountStripped=FALSE did not violate C35_TokenLine")
+    rn = res["ltneg_raw"]
+    ck.tlc_runs.append({"spec": "LineTrack negative control CountBegin=FALSE (raw block)", "violated": rn.invariant_violated})
+    if "C35_TokenLine" not in rn.invariant_violated:
+        raise core.MachineryError("negative control CountBegin=FALSE did not violate C35_TokenLine")
     t1 = time.time()
     n = 0
     per_wrapper = {}
@@ -530,11 +552,11 @@ def replay(ck, rec):
         cid = c["case"]
         ws = sorted(set(cid["wraps"])) or ["if"]
         cfg = lt_cfg(ws, len(cid["wraps"]), [cid["pre"]], [cid["gap"]], [cid["pgap"]], [cid["sign"]], [cid["nlin"]],
-                     [cid["trim"]], [cid["probe"]])
+                     [cid["trim"]], [cid["probe"]], raws=[cid.get("raw", "none")])
         r = core.run_tlc(PID, "LineTrack", cfg, name="replay", workers=2)
         ck.add_tlc(r, "LineTrack replay")
         for case in lt_cases(r):
-            if case["wraps"] == cid["wraps"]:
+            if case["wraps"] == cid["wraps"]:       # (one Raws value in the replay configuration)
                 replay_case(ck, case, c["newline"])
                 check_token_lines(ck, case, c["newline"])
         return
@@ -542,7 +564,7 @@ def replay(ck, rec):
         cid = c["case"]
         ws = sorted(set(cid["wraps"])) or ["if"]
         cfg = lt_cfg(ws, len(cid["wraps"]), [cid["pre"]], [cid["gap"]], [cid["pgap"]], [cid["sign"]], [cid["nlin"]],
-                     [cid["trim"]], [cid["probe"]])
+                     [cid["trim"]], [cid["probe"]], raws=[cid.get("raw", "none")])
         r = core.run_tlc(PID, "LineTrack", cfg, name="replay", workers=2)
         cases = [x for x in lt_cases(r) if x["wraps"] == cid["wraps"]]
         traces, meta = record_traces(cases, random.Random(0), 10)
